@@ -257,13 +257,13 @@ class Interp:
         key = t
         if key in self._const_cache:
             return self._const_cache[key]
-        m = re.match(r"^(.*)::promoted\[(\d+)\]$", t)
+        m = re.match(r"^(.*?)((?:::\{closure#\d+\})*)::promoted\[(\d+)\]$", t)
         item = None
         if m:
             owner = self.resolve_item(m.group(1), frame, None)
             if owner is None:
                 raise Unsupported("promoted owner not found: " + t)
-            item = self.p.items.get(owner.name + "::promoted[" + m.group(2) + "]")
+            item = self.p.items.get(owner.name + m.group(2) + "::promoted[" + m.group(3) + "]")
         else:
             norm = strip_generics(t)
             item = self.p.items.get(norm)
@@ -275,10 +275,31 @@ class Interp:
                 if it is not None and it.kind != "fn":
                     item = it
         if item is None:
+            root = strip_generics(t).lstrip("<").split("::")[0]
+            if root not in self.repo_roots():
+                v = Opaque("extern_const", t)
+                self._const_cache[key] = v
+                return v
             raise Unsupported("unknown constant: " + t)
-        v = self.run_item(item, [], None)
+        if not item.blocks:
+            m2 = re.search(r" = (.*);$", item.ret, re.S)
+            if not m2:
+                raise Unsupported("constant without body: " + t)
+            txt = m2.group(1).strip()
+            v = self.eval_operand([], __import__("mirsym.mirparse", fromlist=["x"]).parse_operand(txt), frame)
+        else:
+            v = self.run_item(item, [], None)
         self._const_cache[key] = v
         return v
+
+    def repo_roots(self):
+        r = getattr(self, "_repo_roots", None)
+        if r is None:
+            r = set()
+            for n in self.p.items:
+                r.add(n.lstrip("<").split("::")[0])
+            self._repo_roots = r
+        return r
 
     def assoc_const(self, norm):
         m = re.match(r"^(?:core::num::<impl )?(i8|i16|i32|i64|i128|isize|u8|u16|u32|u64|u128|usize)>?::(MAX|MIN)$", norm)
@@ -299,7 +320,7 @@ class Interp:
                     p = v
                 elif isinstance(v, BoxV):
                     p = Ptr(v.c, 0)
-                elif isinstance(v, (str, SliceV, VecV)):
+                elif isinstance(v, (str, SliceV, VecV, Ser)):
                     p = ValPtr(v)
                 elif v is UNINIT:
                     raise Unsupported("deref of uninitialised local _%d in %s" % (local, frame.name))
@@ -308,7 +329,9 @@ class Interp:
                     p = ValPtr(v)
             elif k == "field":
                 v = p.get()
-                if isinstance(v, (Agg, Enum)):
+                if isinstance(v, Agg) and v.ty == "MaybeUninit":
+                    pass  # transparent wrappers: MaybeUninit / ManuallyDrop / MaybeDangling
+                elif isinstance(v, (Agg, Enum)):
                     p = Ptr(v.f, pr[1])
                 elif isinstance(v, BoxV):
                     # Box internals (Unique/NonNull): stay on the box
@@ -403,11 +426,11 @@ class Interp:
                     return v
                 if isinstance(v, BoxV):
                     return Ptr(v.c, 0)
-                if isinstance(v, (str, SliceV)):
+                if isinstance(v, (str, SliceV, Ser)):
                     return v
                 return ValPtr(v) if not isinstance(v, (Agg, Enum, VecV, MapV)) else Ptr([v], 0)
             p = self.place_ptr(locs, place, frame)
-            if isinstance(p, ValPtr) and isinstance(p.v, (str, SliceV)):
+            if isinstance(p, ValPtr) and isinstance(p.v, (str, SliceV, Ser)):
                 return p.v
             return p
         if k == "bin":
@@ -442,7 +465,7 @@ class Interp:
         if k == "agg_adt":
             return self.make_adt(locs, rv[1], rv[2], frame)
         if k == "agg_closure":
-            return Agg(rv[1], [self.eval_operand(locs, o, frame) for o in rv[2].values()])
+            return ClosureAgg(rv[1], [self.eval_operand(locs, o, frame) for o in rv[2].values()], list(rv[2].keys()))
         if k == "len":
             a, lo, hi = as_list(self.read_place(locs, rv[1], frame))
             return hi - lo
@@ -467,7 +490,7 @@ class Interp:
                 d = self.enum_discr(segs[-2], last)
                 if d is not None:
                     return Enum(segs[-2], d, vals, last)
-            return self.wrap_struct(norm, vals)
+            return self.wrap_struct(norm, vals, path, frame)
         vals = [self.eval_operand(locs, o, frame) for o in fields]
         if len(segs) >= 2:
             d = self.enum_discr(segs[-2], last)
@@ -476,10 +499,13 @@ class Interp:
                     pass
                 return Enum(segs[-2], d, vals, last)
         # tuple struct / unit struct
-        return self.wrap_struct(norm, vals)
+        return self.wrap_struct(norm, vals, path, frame)
 
-    def wrap_struct(self, norm, vals):
-        return Agg(norm, vals)
+    def wrap_struct(self, norm, vals, path=None, frame=None):
+        g = None
+        if path is not None and "<" in path:
+            g = [self.subst(x, frame) for x in generic_args_flat(path)]
+        return Agg(norm, vals, g)
 
     def enum_discr(self, enum_short, variant):
         e = STD_ENUMS.get(enum_short)
@@ -656,6 +682,21 @@ class Interp:
         norm = strip_generics(raw)
         if norm in items:
             return items[norm]
+        mi = re.match(r"^(.*?)::<impl (.+?)>::(\w+)(::<.*>)?$", raw, re.S)
+        if mi and not raw.startswith("<"):
+            mod, ity, meth = mi.group(1), mi.group(2), mi.group(3)
+            tr = None
+            kf, stf = scan(ity, 0, (" for ",))
+            if stf is not None:
+                tr = strip_generics(ity[:kf]).split("::")[-1]
+                ity = ity[kf + 5 :]
+            st = short_type(ity)
+            for (k_ty, k_tr, k_m), its in self.p.impls.items():
+                if k_m == meth and k_ty == st and (tr is None or k_tr == tr):
+                    for c in its:
+                        if c.name.startswith(mod + "::"):
+                            return c
+            return None
         if raw.startswith("<"):
             j = match_close(raw, 0)
             inner = raw[1:j]
@@ -666,12 +707,17 @@ class Interp:
             method = strip_generics(rest[2:])
             if "::" in method:
                 return None
+            targs = None
             if st is None:
                 ty, trait = inner, None
             else:
-                ty, trait = inner[:k], strip_generics(inner[k + 4 :]).split("::")[-1]
+                tr_full = inner[k + 4 :]
+                ty, trait = inner[:k], strip_generics(tr_full).split("::")[-1]
+                kk = tr_full.find("<")
+                if kk >= 0 and tr_full.endswith(">"):
+                    targs = self.subst(tr_full[kk + 1 : -1], frame)
             ty = self.subst(ty, frame)
-            it = self.p.find_impl(ty, trait, method)
+            it = self.p.find_impl(ty, trait, method, targs)
             if it is not None:
                 return it
             sty = short_type(ty)
@@ -685,9 +731,12 @@ class Interp:
             return None
         # Type::method  (inherent or trait-qualified path)
         k = _rfind_top(raw, "::")
+        if k >= 0 and raw[k + 2 : k + 3] == "<":
+            raw = raw[:k]
+            k = _rfind_top(raw, "::")
         if k < 0:
             return None
-        ty = raw[:k]
+        ty = raw[:k].replace("::<", "<")
         method = strip_generics(raw[k + 2 :])
         ty = self.subst(ty, frame)
         it = self.p.find_impl(strip_generics_tail(ty), None, method)
@@ -740,6 +789,10 @@ class Interp:
     def call_raw(self, raw, args, frame, dest_ty=None):
         """Call the function named by a call-site path."""
         norm = strip_generics(raw)
+        if norm.startswith("core::"):
+            norm = "std::" + norm[6:]
+        elif norm.startswith("alloc::"):
+            norm = "std::" + norm[7:]
         ov = self.overrides.get(norm)
         if ov is not None:
             self.stats.intrinsics_used[norm] = self.stats.intrinsics_used.get(norm, 0) + 1
@@ -754,7 +807,7 @@ class Interp:
                 return ov(self, args, CallCtx(raw, norm, frame, dest_ty, self))
             if not it.blocks:
                 raise Unsupported("item without body: " + it.name)
-            return self.run_item(it, args, self.make_tysub(it, raw, frame))
+            return self.run_item(it, args, self.make_tysub(it, raw, frame, args))
         fn = self.intrinsics.get(norm)
         if fn is None:
             for rx, f in self.patterns:
@@ -766,22 +819,30 @@ class Interp:
         self.stats.intrinsics_used[norm] = self.stats.intrinsics_used.get(norm, 0) + 1
         return fn(self, args, CallCtx(raw, norm, frame, dest_ty, self))
 
-    def make_tysub(self, item, raw, frame):
+    def make_tysub(self, item, raw, frame, args=None):
         names = self.p.generics_of(item)
         if not names:
             return None
         vals = generic_args_flat(raw)
         vals = [self.subst(v, frame) for v in vals]
         sub = {}
+        if args and (raw.startswith("<dyn ") or raw.startswith("<(dyn ") or not vals):
+            recv = deref_all(args[0])
+            if isinstance(recv, Agg) and recv.g:
+                for n, v in zip(names, recv.g):
+                    sub[n] = v
+                return sub
         # align from the right: fn-level generics are the trailing groups
         if len(vals) >= len(names):
             vals = vals[len(vals) - len(names) :]
             for n, v in zip(names, vals):
                 sub[n] = v
         else:
-            # impl generics may be implied by the self type; map what we have to the tail
-            for n, v in zip(names[len(names) - len(vals) :], vals):
+            # trailing parameters have defaults or are inferred
+            for n, v in zip(names, vals):
                 sub[n] = v
+            for n in names[len(vals) :]:
+                sub.setdefault(n, "()")
         return sub
 
     def call_value(self, f, args, frame=None, dest_ty=None):
@@ -793,9 +854,7 @@ class Interp:
         if isinstance(f, FnRef):
             return self.call_raw(f.path, list(args), frame, dest_ty)
         if isinstance(f, Agg) and f.ty and (f.ty.startswith("{closure@") or f.ty.startswith("{coroutine@")):
-            item = self.p.closures.get(f.ty)
-            if item is None:
-                item = self.p.closures.get(re.sub(r" \(#\d+\)", "", f.ty))
+            item = self.p.closure_item(f.ty)
             if item is None:
                 raise Unsupported("closure body not found: " + f.ty)
             self_ty = item.argtys[0]
